@@ -11,7 +11,8 @@ from ..core.values import K, T, RegexV, show
 
 TEXTS = ('abc', '\xe9', '€', '')
 BYTESV = (b'abc', b'', b'\xc3\xa9', b'\xe9', b'a\x00b\x00', b'\xff\xfe',
-          b'\x82\xa0', b'\xef\xbb\xbfni\xc3\xb1o')
+          b'\x82\xa0', b'\xef\xbb\xbfni\xc3\xb1o',
+          b'\x81\xf0')     # U+212B in shift_jis: not stable under NFC
 ENCODINGS = ('utf-8', 'UTF-8', 'latin-1', 'utf-16-le', 'ascii', 'cp1252',
              'shift_jis')
 ERRORS = ('strict', 'ignore', 'replace')
@@ -63,6 +64,7 @@ def _setup_types(kind, syms):
                 return ENV
             return None
         interp.on_attr = on_attr
+        interp.pure_calls.add('unicodedata.normalize')
         interp.types[ENV] = 'str'
 
         def on_call(i, name, f, args, kwargs):
@@ -282,22 +284,28 @@ SLUG_INPUTS = ('Hello World', '\xc0\xc9 caf\xe9', '™ trade', '№5',
                'a--b', ' x ', 'ＡＢＣ', 'ℝeal',
                'MHz ㎒', 'foo_bar', 'tab\tsep', '\xdf', 'İ', '',
                'A  B', '-a-', 'a - b', 'x\n\ny', '\U0001d400bold',
-               'Cℂ', 'already-a-slug_1', 'UPPER')
-SLUG_OK = re.compile(r'^[a-z0-9_-]*$')
+               'Cℂ', 'already-a-slug_1', 'UPPER', 'hello\n', 'a-b\n',
+               'slug\r\n', 'x_y-z', '-', '--', '_', 'a\tb', 'Ångström')
+SLUG_OK = re.compile(r'[a-z0-9_-]*\Z')
+
+
+def _rx_hook(v, val):
+    from ..core import rxmodel
+    return rxmodel.hook(v, val)
 
 
 def _slug_hook(v, val):
     if isinstance(v, T) and v.op == 'call' and \
             v.args[0] == 'unicodedata.normalize':
-        form = ev(v.args[1], val, [_slug_hook])
-        s = ev(v.args[2], val, [_slug_hook])
+        form = ev(v.args[1], val, [_slug_hook, _rx_hook])
+        s = ev(v.args[2], val, [_slug_hook, _rx_hook])
         return unicodedata.normalize(form, s)
     if isinstance(v, T) and v.op == 'call' and \
             v.args[0] == 're.Pattern.sub':
         rx = v.args[1]
         if isinstance(rx, T) and rx.op == 'regex':
-            repl = ev(v.args[2], val, [_slug_hook])
-            s = ev(v.args[3], val, [_slug_hook])
+            repl = ev(v.args[2], val, [_slug_hook, _rx_hook])
+            s = ev(v.args[3], val, [_slug_hook, _rx_hook])
             return re.compile(rx.args[0], rx.args[1]).sub(repl, s)
     return NotImplemented
 
@@ -312,6 +320,8 @@ def _slug(ctx):
         return interp.call(f, [value])
 
     def setup(interp):
+        from ..core import rxmodel
+        rxmodel.install(interp)
         interp.types[value] = 'str'
         interp.pure_calls.update({'unicodedata.normalize',
                                   're.Pattern.sub'})
@@ -324,14 +334,14 @@ def _slug(ctx):
     bad = None
     for s in SLUG_INPUTS:
         try:
-            o = outcome_at(outcomes, {value: s}, [_slug_hook])
-            r1 = outcome_value(o, {value: s}, [_slug_hook])
+            o = outcome_at(outcomes, {value: s}, [_slug_hook, _rx_hook])
+            r1 = outcome_value(o, {value: s}, [_slug_hook, _rx_hook])
             if r1[0] != 'return' or not isinstance(r1[1], str):
                 bad = bad or (s, 'yields %r' % (r1,))
                 continue
             out = r1[1]
-            o2 = outcome_at(outcomes, {value: out}, [_slug_hook])
-            r2 = outcome_value(o2, {value: out}, [_slug_hook])
+            o2 = outcome_at(outcomes, {value: out}, [_slug_hook, _rx_hook])
+            r2 = outcome_value(o2, {value: out}, [_slug_hook, _rx_hook])
         except CannotEval as e:
             rep.undecided('R16.2', 'to_slug', 'cannot evaluate the '
                           'extracted term: %s' % e)
